@@ -374,6 +374,130 @@ def structure_correspondence(tier, seed):
     return ndocs, bad
 
 
+def label_correspondence(tier, seed):
+    """the HTML-like labels against the model (DotLabel.ann_label / fancy_label, character by character) and the
+    extracted acceptor (DotLabel.html_label_ok) against the real Graphviz: single-record documents over pools of
+    attribute names and values full of markup characters; for each the label of the one annotation node is compared
+    with the model's text for the rows (attribute URI, printed name, link target of an Identifier, text) the document's
+    record gives, the acceptor must accept it unless a text holds a control character that is no XML character, and
+    Graphviz must accept every text the acceptor accepts.  Returns (cases, disagreements, failing inputs)."""
+    import datetime
+    import random
+    import prov.model as M
+    from prov.dot import prov_to_dot
+    from prov.constants import PROV_ATTRIBUTE_QNAMES
+    from prov.identifier import Identifier, Namespace, QualifiedName
+    from harness import common
+    from harness.sexp import dumps, loads
+    rng = random.Random(seed * 31 + 7)
+    EX = Namespace("ex", "http://example.org/")
+    AMP = Namespace("amp", 'http://example.org/?a=1&b=<2>"\'#')
+    texts = ["", "plain", 'quo"te', "a<b & c>d", "it's", "two\nlines", "ünï ファイル", "&amp;", "<TD>x</TD>", "</TABLE>", "<br />",
+             "\\", "]]>", "&#x27;", "tab\there", "  ", "\U0001F600", "&lt", "a;b", "<!-- c -->", "Ame\u0301lie"]
+    ctrl = ["a\x0bb", "\x01"]
+    tz = datetime.timezone
+    values = texts + [5, -7, 2.5, True, datetime.datetime(2012, 3, 31, 9, 21, tzinfo=tz(datetime.timedelta(hours=1))),
+                      Identifier("http://u/x?a=1&b=2"), Identifier('http://u/"q"<r>'), EX["e"], AMP["l<o>cal"],
+                      M.Literal("x<y", langtag="en"), M.Literal("a&b", EX["My<Type>"]), M.Literal("1", M.XSD_INT)]
+    names = [EX["k"], EX["k<2>"], AMP["n&m"], M.PROV["label"], M.PROV["type"], M.PROV["value"], M.PROV["location"], M.PROV["role"]]
+    n = 120 if tier == "quick" else 1500
+    cases, reqs = [], []
+    for i in range(n):
+        d = M.ProvDocument()
+        d.add_namespace(EX); d.add_namespace(AMP)
+        kind = rng.choice(["entity", "activity", "agent", "relation"])
+        attrs = []
+        for _ in range(rng.choice([1, 1, 2, 3, 5])):
+            a = rng.choice(names)
+            if a == M.PROV["value"] and any(x == a for x, _ in attrs):
+                continue
+            v = rng.choice(values) if rng.random() > 0.05 else rng.choice(ctrl)
+            attrs.append((a, v))
+        use_labels = rng.random() < 0.5
+        if use_labels and kind != "relation" and rng.random() < 0.7:
+            attrs.append((M.PROV["label"], rng.choice(texts + [M.Literal("l<a>b", langtag="en")])))
+        if kind == "relation":
+            d.entity(EX["e1"]); d.activity(EX["a1"])
+            r = d.wasGeneratedBy(EX["e1"], EX["a1"], None, EX["g"] if rng.random() < 0.5 else None, attrs)
+        else:
+            r = getattr(d, kind)(EX[rng.choice(["x", "y<z>", "q&r"])], other_attributes=attrs)
+        try:
+            g = prov_to_dot(d, use_labels=use_labels)
+        except Exception as e:
+            cases.append(("raise", repr(e)[:200], d.get_provn(), None, None, None, None))
+            reqs.append(dumps(["htmlok", ""]))
+            continue
+        notes, fancy = [], []
+        for name, lst in g.obj_dict["nodes"].items():
+            for nd in lst:
+                a = nd["attributes"]
+                if a.get("shape") == "note":
+                    notes.append(a.get("label", ""))
+                elif a.get("label", "").startswith("<"):
+                    fancy.append(a["label"])
+        shown = [(a, v) for a, v in M.sorted_attributes(r.get_type(), [(a, v) for a, v in r.attributes if a not in PROV_ATTRIBUTE_QNAMES])]
+        rows = [[a.uri, str(a), ["some", v.uri] if isinstance(v, Identifier) else "none",
+                 v.isoformat() if isinstance(v, datetime.datetime) else str(v)] for a, v in shown]
+        bad_ctrl = any(ord(ch) < 32 and ch not in "\t\n\r" for row in rows for x in row for ch in (x if isinstance(x, str) else x[1] if isinstance(x, list) else ""))
+        accepted = run_dot(g.to_string())[0] is not None
+        cases.append(("ok", notes, d.get_provn(), rows, bad_ctrl, accepted, fancy))
+        reqs.append(dumps(["annlabel", rows]))
+        want_fancy = None
+        if use_labels and kind != "relation" and r.label != r.identifier:
+            want_fancy = [str(r.label), str(r.identifier)]
+        cases[-1] = cases[-1] + (want_fancy,)
+        reqs.append(dumps(["fancylabel"] + (want_fancy or ["", ""])))
+        cases.append(None)
+    outs = [loads(x) for x in common.run_model_batch(reqs)]
+    bad, fails = [], []
+    k = 0
+    ncase = 0
+    stats = Counter()
+    for c, o in zip(cases, outs):
+        if c is None:
+            continue
+    i = 0
+    while i < len(cases):
+        c = cases[i]
+        if c[0] == "raise":
+            fails.append({"what": "prov_to_dot raised", "exc": c[1], "provn": c[2][:600]})
+            i += 1
+            continue
+        _, notes, provn, rows, bad_ctrl, accepted, fancy, want_fancy = c
+        ann, fan = outs[i], outs[i + 1]
+        i += 2
+        ncase += 1
+        if rows:
+            if len(notes) != 1:
+                bad.append({"what": "a record with %d displayed attributes has %d annotation nodes" % (len(rows), len(notes)), "provn": provn[:600]})
+                continue
+            if not isinstance(ann, list) or ann[0] != notes[0]:
+                bad.append({"what": "annotation label differs from DotLabel.ann_label", "impl": notes[0][:500],
+                            "model": (ann[0] if isinstance(ann, list) else repr(ann))[:500], "provn": provn[:600]})
+                continue
+            verdict = ann[1] == "true"
+            stats["annotation:" + ("accepted" if verdict else "rejected")] += 1
+            if not bad_ctrl and not verdict:
+                bad.append({"what": "the acceptor rejects an annotation table without control characters (C15_annotation_table_accepted says it cannot)",
+                            "label": notes[0][:500]})
+            if verdict and not accepted and not (want_fancy and False):
+                fails.append({"what": "Graphviz rejects a DOT text whose annotation table the acceptor accepts", "provn": provn[:600], "label": notes[0][:400]})
+            if bad_ctrl and accepted and not verdict:
+                stats["acceptor stricter than Graphviz"] += 1
+        elif notes:
+            bad.append({"what": "annotation node for a record without displayed attributes", "provn": provn[:600]})
+        if want_fancy:
+            if len(fancy) != 1 or not isinstance(fan, list) or fan[0] != fancy[0]:
+                bad.append({"what": "two-line element label differs from DotLabel.fancy_label", "impl": [x[:300] for x in fancy],
+                            "model": (fan[0] if isinstance(fan, list) else repr(fan))[:300], "provn": provn[:600]})
+            else:
+                stats["fancy:" + fan[1]] += 1
+                lab_ctrl = any(ord(ch) < 32 and ch not in "\t\n\r" for x in want_fancy for ch in x)
+                if fan[1] != "true" and not lab_ctrl:
+                    bad.append({"what": "the acceptor rejects a two-line label without control characters", "label": fancy[0][:300]})
+    return ncase, bad, fails, dict(stats)
+
+
 def classify(f, ops):
     if "control-character" in f.get("feats", []):
         return "C15-F1"
@@ -462,6 +586,16 @@ def run(tier, seed, log, model_runs=True, enlarged=False):
                                              "program": b.get("program"),
                                              "theorem": "correspondence Dotg.dot_structure ~ the pydot graph prov_to_dot builds "
                                                         "(C15_elements_one_node_each, C15_relation_path, C15_nary_further_ends are stated over the model)"})
+        nl, bad, lfails, lstats = label_correspondence(tier, seed)
+        res["coverage"]["label_cases"] = nl
+        res["coverage"]["label_stats"] = lstats
+        log("HTML-like labels: %d single-record documents, %d disagreements, %d failing inputs (%s)" % (nl, len(bad), len(lfails), lstats))
+        for b in bad[:2]:
+            res["disagreements"].append({"first_difference": json.dumps(b)[:1500],
+                                         "theorem": "correspondence DotLabel.ann_label / fancy_label / html_label_ok ~ the labels prov_to_dot builds "
+                                                    "(C15_annotation_table_accepted, C15_fancy_label_accepted are stated over the model)"})
+        for f in lfails[:2]:
+            res["violations"].append({"kind": "failing-input", "failure": f, "program": None})
     return res
 
 
